@@ -36,6 +36,8 @@ use tokio::sync::oneshot;
 use tokio::task::JoinHandle;
 
 const SUB_BASE: u64 = 5000;
+/// readers of the current case start late (`opts=slowread`)
+static SLOW_READER: std::sync::atomic::AtomicBool = std::sync::atomic::AtomicBool::new(false);
 
 #[derive(Clone, Copy, PartialEq, Eq, Debug)]
 enum Tr {
@@ -59,6 +61,12 @@ struct Run {
 	call_conn: BTreeMap<u64, u64>,
 	/// (log index at which the line was emitted is implicit: lines ARE the log)
 	failed: Option<String>,
+	/// extra `ServerHandle` clones held by "user code"
+	clones: Vec<ServerHandle>,
+	/// requests carry `Connection: close`
+	close_hdr: bool,
+	/// times the freed port could be bound again after the stop
+	rebinds: u64,
 }
 
 fn log_has(shared: &Shared, entry: &str) -> bool {
@@ -71,7 +79,16 @@ fn note_action(shared: &Shared, text: String, out: &str) {
 }
 
 fn spawn_reader(shared: Arc<Shared>, c: u64, tr: Tr, mut rd: tokio::net::tcp::OwnedReadHalf, mut buf: Vec<u8>, mut quit: oneshot::Receiver<()>) -> JoinHandle<()> {
+	let slow = SLOW_READER.load(std::sync::atomic::Ordering::Relaxed);
 	tokio::spawn(async move {
+		if slow {
+			// a client that is not particularly fast: it starts reading only when the server says it is
+			// done, or after 200 ms (what the server wrote before stays in the socket buffers)
+			let t0 = std::time::Instant::now();
+			while !log_has(&shared, "resolved") && t0.elapsed() < std::time::Duration::from_millis(200) {
+				tokio::time::sleep(std::time::Duration::from_millis(2)).await;
+			}
+		}
 		loop {
 			let id = tokio::select! {
 				biased;
@@ -79,12 +96,12 @@ fn spawn_reader(shared: Arc<Shared>, c: u64, tr: Tr, mut rd: tokio::net::tcp::Ow
 				r = async {
 					match tr {
 						Tr::Http => match read_http_response(&mut rd, &mut buf).await {
-							Ok(Some(rp)) => Some(reply_id(&rp.body)),
+							Ok(Some(rp)) => Some(reply_ids_fast(&rp.body)),
 							_ => None,
 						},
 						Tr::Ws => loop {
 							match read_ws_frame(&mut rd, &mut buf).await {
-								Ok(Some((1, p))) => break Some(reply_id(&p)),
+								Ok(Some((1, p))) => break Some(reply_ids_fast(&p)),
 								Ok(Some((8, _))) | Ok(None) | Err(_) => break None,
 								Ok(Some(_)) => continue,
 							}
@@ -93,8 +110,12 @@ fn spawn_reader(shared: Arc<Shared>, c: u64, tr: Tr, mut rd: tokio::net::tcp::Ow
 				} => r,
 			};
 			match id {
-				Some(Some(k)) if k < SUB_BASE => shared.note(format!("resp {k}")),
-				Some(_) => {}
+				Some(ids) => {
+					// (a batch reply answers several calls at once; notifications carry no id)
+					for k in ids.into_iter().filter(|k| *k < SUB_BASE) {
+						shared.note(format!("resp {k}"));
+					}
+				}
 				None => {
 					shared.note(format!("eof {c}"));
 					return;
@@ -183,6 +204,7 @@ impl Run {
 					}
 				};
 				if port_free {
+					self.rebinds += 1;
 					note_action(&shared, format!("open {c} {trs} refused"), "ok");
 					return;
 				}
@@ -228,14 +250,36 @@ impl Run {
 				let (c, k) = (num(1), num(2));
 				// a connection the script never opened (its `open` fell behind the stop signal): not an event
 				let Some(tr) = self.conns.get(&c).map(|x| x.tr) else { return };
-				let method = if w[0] == "sub" { "sub" } else { "hold" };
-				let body = call_json(k, method, k);
-				let bytes = if tr == Tr::Ws { ws_frame(1, body.as_bytes()) } else { post_request(&body) };
+				let kind = w.get(3).copied().unwrap_or("");
+				let method = match (w[0], kind) {
+					("sub", "chatty") => "subchat",
+					("sub", _) => "sub",
+					(_, "block") => "holdb",
+					(_, "blockpanic") => "holdbp",
+					(_, "big") => "holdbig",
+					_ => "hold",
+				};
+				let body = if w[0] == "send" && kind == "batch" {
+					// one message, two calls executed one after the other (ids k and k+1000)
+					format!("[{},{}]", call_json(k, "hold", k), call_json(k + 1000, "hold", k + 1000))
+				} else {
+					call_json(k, method, k)
+				};
+				let bytes = if tr == Tr::Ws {
+					ws_frame(1, body.as_bytes())
+				} else if self.close_hdr {
+					post_request_close(&body)
+				} else {
+					post_request(&body)
+				};
 				if w[0] == "send" {
 					self.call_conn.insert(k, c);
+					if kind == "batch" {
+						self.call_conn.insert(k + 1000, c);
+					}
 				}
 				// logged BEFORE the bytes leave: nothing the server does can precede the line
-				note_action(&shared, format!("{} {c} {k}", w[0]), "ok");
+				note_action(&shared, if kind.is_empty() { format!("{} {c} {k}", w[0]) } else { format!("{} {c} {k} {kind}", w[0]) }, "ok");
 				self.write(c, &bytes).await;
 			}
 			"wsub" => {
@@ -273,13 +317,59 @@ impl Run {
 			"drop" => {
 				note_action(&shared, "drop".into(), "ok");
 				self.handle = None;
+				self.clones.clear();
+			}
+			"hclone" => {
+				if let Some(h) = &self.handle {
+					self.clones.push(h.clone());
+				}
+				note_action(&shared, "hclone".into(), "ok");
+			}
+			"hdropc" => {
+				// drop one of the extra clones (oldest first / newest first alternately)
+				if !self.clones.is_empty() {
+					let i = if self.clones.len() % 2 == 0 { 0 } else { self.clones.len() - 1 };
+					drop(self.clones.remove(i));
+				}
+				note_action(&shared, "hdropc".into(), "ok");
+			}
+			"isstopped" => {
+				let h = self.handle.as_ref().or(self.clones.first());
+				match h {
+					Some(h) => note_action(&shared, format!("isstopped {}", h.is_stopped() as u8), "ok"),
+					None => {}
+				}
+			}
+			"popen" => {
+				// a plain TCP connect while the server winds down, nothing verified: the connection may sit
+				// in the listen backlog, be refused, or (if the accept loop is still there) be served
+				let c = num(1);
+				match Conn::open(self.env.addr).await {
+					Ok(conn) => {
+						let (rd, wr) = conn.sock.into_split();
+						let (qtx, qrx) = oneshot::channel();
+						let reader = spawn_reader(shared.clone(), c, Tr::Http, rd, conn.buf, qrx);
+						self.conns.insert(c, CConn { tr: Tr::Http, wr: Some(wr), reader: Some(reader), quit: Some(qtx), gone: false });
+						note_action(&shared, format!("popen {c} ok"), "ok");
+					}
+					Err(_) => note_action(&shared, format!("popen {c} refused"), "ok"),
+				}
 			}
 			"gone" => {
 				let c = num(1);
+				let half = w.get(2) == Some(&"half");
 				let Some(x) = self.conns.get_mut(&c) else { return };
 				x.gone = true;
-				note_action(&shared, format!("gone {c}"), "ok");
-				self.close_conn(c, true).await;
+				if half {
+					// the client shuts down its sending side and keeps reading: for the server the peer is gone
+					note_action(&shared, format!("gone {c} half"), "ok");
+					if let Some(w) = x.wr.as_mut() {
+						let _ = w.shutdown().await;
+					}
+				} else {
+					note_action(&shared, format!("gone {c}"), "ok");
+					self.close_conn(c, true).await;
+				}
 			}
 			"wstart" | "wfin" | "wresp" => {
 				let k = num(1);
@@ -311,19 +401,35 @@ impl Run {
 	}
 }
 
-const ACTIONS: [&str; 16] = ["open", "send", "sub", "wsub", "rel", "relall", "yield", "stop", "drop", "gone", "wstart", "wfin", "wresp", "weof", "wres", "end"];
+const ACTIONS: [&str; 20] = [
+	"open", "send", "sub", "wsub", "rel", "relall", "yield", "stop", "drop", "gone", "wstart", "wfin", "wresp", "weof", "wres", "end", "hclone", "hdropc",
+	"isstopped", "popen",
+];
 
 struct Header {
 	assembly: Assembly,
 	cap: u32,
+	ping: bool,
+	close_hdr: bool,
+	/// the server runs on a runtime of its own that is torn down the moment `stopped()` resolves
+	own_rt: bool,
+	slow_read: bool,
 }
 
 fn parse_header(l: &str) -> Option<Header> {
 	let w: Vec<&str> = l.split(' ').collect();
-	if w.len() != 5 || w[0] != "case" || w[2] != "stop" {
+	if !(w.len() == 5 || w.len() == 6) || w[0] != "case" || w[2] != "stop" {
 		return None;
 	}
-	Some(Header { cap: w[3].strip_prefix("cap=")?.parse().ok()?, assembly: Assembly::parse(w[4].strip_prefix("path=")?)? })
+	let opts: Vec<&str> = w.get(5).and_then(|o| o.strip_prefix("opts=")).map(|o| o.split(',').collect()).unwrap_or_default();
+	Some(Header {
+		cap: w[3].strip_prefix("cap=")?.parse().ok()?,
+		assembly: Assembly::parse(w[4].strip_prefix("path=")?)?,
+		ping: opts.contains(&"ping"),
+		close_hdr: opts.contains(&"closehdr"),
+		own_rt: opts.contains(&"ownrt"),
+		slow_read: opts.contains(&"slowread"),
+	})
 }
 
 /// the oracle: the property itself, checked on the log
@@ -333,8 +439,10 @@ fn oracle(log: &[String], gone: &BTreeSet<u64>, call_conn: &BTreeMap<u64, u64>) 
 	let on_gone = |k: u64| call_conn.get(&k).map(|c| gone.contains(c)).unwrap_or(true);
 	for (i, l) in log.iter().enumerate() {
 		if let Some(k) = l.strip_prefix("start ").and_then(|s| s.parse::<u64>().ok()) {
+			// (on a connection whose client went away the call task is on its own: the connection task
+			// does not wait for it, so it may even start late — the statement exempts those clients)
 			if let Some(r) = resolved {
-				if i > r {
+				if i > r && !on_gone(k) {
 					return Err(format!("handler of call {k} started after stopped() had resolved"));
 				}
 			}
@@ -385,7 +493,22 @@ async fn run_case(lines: &[String], out: &mut Out) -> bool {
 		}
 		return true;
 	};
-	let mut env = start_env(&EnvCfg { assembly: h.assembly, max: 50, http: true, ws: true, ping: None, buffer: h.cap }).await;
+	// ping: frames flow in both phases (the writer's ping branch is live during the drain); the
+	// inactivity limit is far away, so no session ends because the harness never answers pings
+	let ping = h.ping.then_some((10u64, 600_000u64));
+	let ecfg = EnvCfg { assembly: h.assembly, max: 50, http: true, ws: true, ping, buffer: h.cap };
+	SLOW_READER.store(h.slow_read, std::sync::atomic::Ordering::Relaxed);
+	// `ownrt`: what a typical `main` does — the server lives on its own runtime, `stopped().await`,
+	// then everything is torn down at once.  Whatever the server still had to do is lost.
+	let server_rt: Arc<std::sync::Mutex<Option<tokio::runtime::Runtime>>> = Arc::new(std::sync::Mutex::new(None));
+	let mut env = if h.own_rt {
+		let rt = tokio::runtime::Builder::new_multi_thread().worker_threads(2).enable_all().build().unwrap();
+		let env = rt.spawn(async move { start_env(&ecfg).await }).await.expect("server start");
+		*server_rt.lock().unwrap() = Some(rt);
+		env
+	} else {
+		start_env(&ecfg).await
+	};
 	let shared = env.shared.clone();
 	let handle = env.handle.take();
 	// the script: action lines only; observation lines of a replay file are re-observed
@@ -402,12 +525,16 @@ async fn run_case(lines: &[String], out: &mut Out) -> bool {
 	} else {
 		let h2 = handle.clone().unwrap();
 		let sh = shared.clone();
+		let rt_slot = server_rt.clone();
 		Some(tokio::spawn(async move {
 			h2.stopped().await;
 			sh.note("resolved".into());
+			if let Some(rt) = rt_slot.lock().unwrap().take() {
+				rt.shutdown_background();
+			}
 		}))
 	};
-	let mut run = Run { env, shared: shared.clone(), handle, conns: BTreeMap::new(), call_conn: BTreeMap::new(), failed: None };
+	let mut run = Run { env, shared: shared.clone(), handle, conns: BTreeMap::new(), call_conn: BTreeMap::new(), failed: None, clones: vec![], close_hdr: h.close_hdr, rebinds: 0 };
 	for w in &script {
 		if w[0] == "end" {
 			break;
@@ -441,6 +568,21 @@ async fn run_case(lines: &[String], out: &mut Out) -> bool {
 	out.count(&format!("case.path={}", h.assembly.name()));
 	out.count(if drop_only { "case.kind=drop_only" } else { "case.kind=stop" });
 	out.count(&format!("case.cap={}", h.cap));
+	if h.ping {
+		out.count("case.opt.ping");
+	}
+	if h.close_hdr {
+		out.count("case.opt.connection_close_header");
+	}
+	if h.own_rt {
+		out.count("case.opt.own_runtime_torn_down_at_resolution");
+	}
+	if h.slow_read {
+		out.count("case.opt.slow_reader");
+	}
+	if run.rebinds > 0 {
+		out.count("late.port_can_be_bound_again");
+	}
 	let stop_at = log.iter().position(|l| l.starts_with("A stop ") || l == "A drop|ok");
 	let mut started_before_stop = 0;
 	// distinctness is counted per observed HISTORY (assembly + the whole trace)
@@ -450,6 +592,16 @@ async fn run_case(lines: &[String], out: &mut Out) -> bool {
 			let (text, o) = a.rsplit_once('|').unwrap_or((a, "ok"));
 			let verb = text.split(' ').next().unwrap_or("");
 			out.count(&format!("act.{verb}"));
+			let toks: Vec<&str> = text.split(' ').collect();
+			if (verb == "send" || verb == "sub") && toks.len() == 4 {
+				out.count(&format!("act.{verb}.{}", toks[3]));
+			}
+			if verb == "gone" && toks.len() == 3 {
+				out.count("act.gone.half_close");
+			}
+			if verb == "isstopped" || verb == "popen" {
+				out.count(&format!("act.{verb}.{}", toks[toks.len() - 1]));
+			}
 			if text.ends_with(" no") {
 				out.count(&format!("act.{verb}.no"));
 			}
@@ -537,6 +689,10 @@ async fn run_case(lines: &[String], out: &mut Out) -> bool {
 			out.count("cleanup.stopped_not_resolved");
 		}
 	}
+	if let Some(rt) = server_rt.lock().unwrap().take() {
+		rt.shutdown_background();
+	}
+	SLOW_READER.store(false, std::sync::atomic::Ordering::Relaxed);
 	ok
 }
 
@@ -624,14 +780,22 @@ fn gen_base(rng: &mut Rng) -> Base {
 		let mut p = vec![];
 		if tr == Tr::Ws && rng.chance(1, 3) {
 			let s = SUB_BASE + c;
-			p.push(format!("sub {c} {s}"));
+			// quiet (one notification, then idle) or chatty (notifications keep competing with the
+			// answers for room in the writer queue until the connection goes)
+			p.push(if rng.chance(1, 3) { format!("sub {c} {s} chatty") } else { format!("sub {c} {s}") });
 			p.push(format!("wsub {s}"));
 		}
 		let ncalls = rng.below(3);
 		for _ in 0..ncalls {
 			k += 1;
 			b.calls.push(k);
-			p.push(format!("send {c} {k}"));
+			// async handler / blocking handler / blocking handler that panics after its release /
+			// one message with two calls executed one after the other
+			let kind = *rng.pick(&["", "", "", "", "", "", "block", "block", "blockpanic", "batch", "batch"]);
+			p.push(if kind.is_empty() { format!("send {c} {k}") } else { format!("send {c} {k} {kind}") });
+			if kind == "batch" {
+				b.calls.push(k + 1000);
+			}
 			if rng.chance(4, 5) {
 				p.push(format!("wstart {k}"));
 			}
@@ -639,6 +803,13 @@ fn gen_base(rng: &mut Rng) -> Base {
 				p.push(format!("rel {k}"));
 				if rng.chance(2, 3) {
 					p.push(format!("wfin {k}"));
+				}
+				if kind == "batch" {
+					// the reply of a batch leaves when its LAST call is done
+					if rng.chance(1, 2) {
+						p.push(format!("wstart {}", k + 1000));
+					}
+					p.push(format!("rel {}", k + 1000));
 				}
 				if rng.chance(1, 2) {
 					p.push(format!("wresp {k}"));
@@ -649,7 +820,11 @@ fn gen_base(rng: &mut Rng) -> Base {
 			}
 		}
 		if rng.chance(1, 8) {
-			p.push(format!("gone {c}"));
+			p.push(if rng.chance(1, 3) { format!("gone {c} half") } else { format!("gone {c}") });
+		}
+		// user code holding extra handle clones and asking `is_stopped()`
+		if rng.chance(1, 6) {
+			p.insert(rng.below(p.len() as u64 + 1) as usize, (*rng.pick(&["hclone", "hclone", "hdropc", "isstopped"])).to_string());
 		}
 		progs.push(p);
 	}
@@ -670,9 +845,16 @@ fn gen_base(rng: &mut Rng) -> Base {
 /// HTTP connections must not get a second request while one is unanswered (no pipelining in the
 /// generated histories): after inserting `stop` this still holds because the base respects it.
 fn gen_case(rng: &mut Rng, n: u64, base: &Base, stop_pos: usize, kind: u64) -> Vec<String> {
-	let asm = if rng.chance(1, 3) { Assembly::Tower } else { Assembly::Server };
+	let asm = *rng.pick(&[Assembly::Server, Assembly::Server, Assembly::Server, Assembly::Tower, Assembly::Tower, Assembly::LowLevel]);
 	let cap = base.cap.unwrap_or_else(|| *rng.pick(&[1u32, 2, 3, 16]));
-	let mut l = vec![format!("case {n} stop cap={cap} path={}", asm.name())];
+	let opts = match rng.below(6) {
+		0 => "ping",
+		1 => "closehdr",
+		2 if rng.chance(1, 2) => "ping,closehdr",
+		_ => "-",
+	};
+	let mut l = vec![format!("case {n} stop cap={cap} path={} opts={opts}", asm.name())];
+	let mut extra_calls: Vec<u64> = vec![];
 	let mut acts: Vec<String> = base.acts.clone();
 	let pos = stop_pos.min(acts.len());
 	let drop_only = kind == 0;
@@ -692,6 +874,17 @@ fn gen_case(rng: &mut Rng, n: u64, base: &Base, stop_pos: usize, kind: u64) -> V
 		}
 		i += 1;
 	}
+	// what peers and user code may do while the server winds down
+	if !drop_only && rng.chance(1, 4) {
+		let at = rng.below(tail.len() as u64 + 1) as usize;
+		tail.insert(at, "send 7 77".into());
+		tail.insert(at, "popen 7".into());
+		extra_calls.push(77);
+	}
+	if !drop_only && rng.chance(1, 4) {
+		let at = rng.below(tail.len() as u64 + 1) as usize;
+		tail.insert(at, (*rng.pick(&["isstopped", "hclone", "hdropc"])).to_string());
+	}
 	acts.extend(tail);
 	// no connection is opened between the stop signal and resolution (see module doc)
 	let mut seen_stop = false;
@@ -709,7 +902,7 @@ fn gen_case(rng: &mut Rng, n: u64, base: &Base, stop_pos: usize, kind: u64) -> V
 		l.push("st stop".into());
 	}
 	l.push("st relall".into());
-	for k in &base.calls {
+	for k in base.calls.iter().chain(extra_calls.iter()) {
 		if rng.chance(1, 2) {
 			l.push(format!("st wfin {k}"));
 		}
@@ -718,7 +911,7 @@ fn gen_case(rng: &mut Rng, n: u64, base: &Base, stop_pos: usize, kind: u64) -> V
 	if drop_only {
 		let opened: Vec<u64> = acts.iter().filter_map(|a| a.strip_prefix("open ").map(|r| r.split(' ').next().unwrap().parse().unwrap())).collect();
 		for (c, _) in base.conns.iter().filter(|(c, _)| opened.contains(c)) {
-			if !acts.iter().any(|a| *a == format!("gone {c}")) {
+			if !acts.iter().any(|a| *a == format!("gone {c}") || *a == format!("gone {c} half")) {
 				l.push(format!("st weof {c}"));
 			}
 		}
@@ -727,12 +920,16 @@ fn gen_case(rng: &mut Rng, n: u64, base: &Base, stop_pos: usize, kind: u64) -> V
 			l.push("st drop".into());
 		}
 		l.push("st wres".into());
+		if rng.chance(1, 2) {
+			l.push("st isstopped".into());
+			l.push("st hdropc".into());
+		}
 		if kind != 3 {
 			l.push("st stop".into());
 		}
 		// after resolution: a late call on an old connection, a late connection attempt
 		if let Some((c, _)) = base.conns.first() {
-			if acts.iter().any(|a| a.starts_with(&format!("open {c} "))) && !acts.iter().any(|a| *a == format!("gone {c}")) {
+			if acts.iter().any(|a| a.starts_with(&format!("open {c} "))) && !acts.iter().any(|a| *a == format!("gone {c}") || *a == format!("gone {c} half")) {
 				l.push(format!("st send {c} 900"));
 				l.push("st yield".into());
 				l.push("st wstart 900".into());
@@ -740,6 +937,55 @@ fn gen_case(rng: &mut Rng, n: u64, base: &Base, stop_pos: usize, kind: u64) -> V
 		}
 		l.push(format!("st open 99 {}", if rng.chance(1, 2) { "ws" } else { "http" }));
 	}
+	l.push("st end".into());
+	l
+}
+
+/// `main`-style shutdown with answers that take the send task a while: the server runs on its own
+/// runtime which is torn down the moment `stopped()` resolves; several 4 MB answers (more than the
+/// socket buffers hold) are in flight on one WebSocket connection when stop lands; the client may be
+/// slow to read.  Everything handed to the transport before resolution survives the teardown,
+/// nothing else does — so every answer must have been WRITTEN by then.
+fn gen_big_case(rng: &mut Rng, n: u64) -> Vec<String> {
+	let asm = *rng.pick(&[Assembly::Server, Assembly::Server, Assembly::Tower, Assembly::LowLevel]);
+	// a roomy queue: all answers are queued at once, so at the end of the drain the send task still
+	// has most of them to WRITE (with a tiny queue the call tasks themselves hold the drain back)
+	let cap = *rng.pick(&[16u32, 16, 8, 2]);
+	let slow = rng.chance(3, 4);
+	let mut l = vec![format!("case {n} stop cap={cap} path={} opts=ownrt{}", asm.name(), if slow { ",slowread" } else { "" })];
+	let ncalls = rng.range(5, 7);
+	l.push("st open 1 ws".into());
+	let http = rng.chance(1, 2);
+	if http {
+		l.push("st open 2 http".into());
+	}
+	let calls: Vec<u64> = (11..11 + ncalls).collect();
+	for k in &calls {
+		l.push(format!("st send 1 {k} big"));
+		l.push(format!("st wstart {k}"));
+	}
+	if http {
+		l.push("st send 2 91 big".into());
+		l.push("st wstart 91".into());
+	}
+	let early = rng.chance(1, 3);
+	if early {
+		// some finish before the stop signal
+		l.push(format!("st rel {}", calls[0]));
+		l.push(format!("st wfin {}", calls[0]));
+	}
+	l.push("st stop".into());
+	if rng.chance(1, 2) {
+		l.push("st yield".into());
+	}
+	l.push("st relall".into());
+	for k in &calls {
+		l.push(format!("st wresp {k}"));
+	}
+	if http {
+		l.push("st wresp 91".into());
+	}
+	l.push("st wres".into());
 	l.push("st end".into());
 	l
 }
@@ -757,6 +1003,14 @@ fn split_cases(lines: Vec<String>) -> Vec<Vec<String>> {
 }
 
 fn main() {
+	// the `holdbp` handler panics on purpose (on a blocking-pool thread): keep stderr readable
+	let default_hook = std::panic::take_hook();
+	std::panic::set_hook(Box::new(move |info| {
+		let msg = info.payload().downcast_ref::<String>().cloned().unwrap_or_default();
+		if !msg.contains("panics on purpose") {
+			default_hook(info);
+		}
+	}));
 	let a = args();
 	let mut out = Out::new();
 	let thorough = a.tier == "thorough";
@@ -769,6 +1023,10 @@ fn main() {
 		let total = a.cases.unwrap_or(if thorough { 15000 } else { 1000 });
 		let mut n = 1000u64;
 		let mut nbase = 0u64;
+		for _ in 0..(if thorough { 40 } else { 6 }) {
+			cases.push(gen_big_case(&mut rng, n));
+			n += 1;
+		}
 		while (cases.len() as u64) < total {
 			// one base history, `stop` at EVERY position of it (thorough) / at a few positions (quick)
 			nbase += 1;
